@@ -3,14 +3,14 @@
   REAL hook discovery (`hasattr(obj, hook)` + `get_callable_args`), executed on instances of generated class shapes — a
   `lcc.inject_fixture()` marker written in the class body / a base class / the grand-base / a mixin / `__init__` of the class or
   of a base, under every attribute-name shape (`conn`, `_conn`, `__conn`, `__conn__`, explicit / empty fixture name), shadowed or
-  not by a plain class or instance attribute or a property, two markers for one fixture, … — equal the model `Inject.injectedOf`
-  / `Inject.hookParams` evaluated on the attribute layers of the very same objects (`vars(obj)`, `vars(C)` along the MRO).
+  not by a plain class or instance attribute or a property, two markers for one fixture, … — equal the model `SuiteObj.injectedOf`
+  / `SuiteObj.hookParams` evaluated on the attribute layers of the very same objects (`vars(obj)`, `vars(C)` along the MRO).
 -/
-import LccModel.Model.Inject
+import LccModel.Model.SuiteObject
 import LccModel.Generated.C03Tables
 
 namespace LccModel.Generated.C03
-open LccModel.Inject
+open LccModel.SuiteObj
 
 theorem inject_table_agrees : ∀ r ∈ injectTable, injectedOf r.1 = r.2 := by decide +kernel
 
